@@ -270,13 +270,17 @@ func (sr *scenRun) tamperOracle(e *endpoint, tRTP map[tkey]string, tAPP map[uint
 	run.Count("tamper:"+sc.Transport+":untampered-neighbours-checked", int64(untampered))
 	run.Count("tamper:"+sc.Transport+":untampered-neighbours-lost", int64(lost))
 	run.Count("tamper:"+sc.Transport+":packets-right-after-a-tampered-one", int64(afterTamper))
-	allow := 0
+	// TCP: nothing may be missing. UDP may lose packets anywhere (legal); what an altered packet
+	// must not do is take its successors with it: the packets directly after an altered one must
+	// arrive (at most 10 % of them missing), and the receiver must not lose most of the stream.
+	bad := lost > 0
 	if !reliable {
-		allow = untampered / 50 // UDP: 2 % loss allowance
+		bad = afterTamperLost > 3+afterTamper/10 || lost > untampered/2
+		run.Count("tamper:udp:packets-right-after-a-tampered-one-lost", int64(afterTamperLost))
 	}
-	if lost > allow {
+	if bad {
 		sr.fail("tamper/"+sc.Transport+"/"+sr.coldTag()+"untampered-neighbour-lost",
-			fmt.Sprintf("endpoint %s: %d of %d untampered packets between the first and last delivered one are missing (%d of them directly after a tampered packet)", e.name, lost, untampered, afterTamperLost), nil)
+			fmt.Sprintf("endpoint %s: %d of %d untampered packets between the first and last delivered one are missing (%d of the %d packets directly after a tampered one)", e.name, lost, untampered, afterTamperLost, afterTamper), nil)
 	}
 	// every altered packet must have raised a decode error
 	nT := int64(len(tRTP) + len(tAPP))
